@@ -134,11 +134,20 @@ func (s *CertPool) findVerifiedParents(cert *Certificate) (parents []int, errCer
 	}
 	var candidates []int
 
+	// The authority key identifier is only a hint: certificates found through
+	// it are tried first, but a match must not hide a certificate with the
+	// issuer's name that carries no (or another) subject key identifier.
 	if len(cert.AuthorityKeyId) > 0 {
-		candidates = s.bySubjectKeyId[string(cert.AuthorityKeyId)]
+		candidates = append(candidates, s.bySubjectKeyId[string(cert.AuthorityKeyId)]...)
 	}
-	if len(candidates) == 0 {
-		candidates = s.byName[string(cert.RawIssuer)]
+nextByName:
+	for _, c := range s.byName[string(cert.RawIssuer)] {
+		for _, have := range candidates {
+			if have == c {
+				continue nextByName
+			}
+		}
+		candidates = append(candidates, c)
 	}
 
 	for _, c := range candidates {
